@@ -32,6 +32,15 @@ class Infeasible(Exception):
     """path condition became unsatisfiable"""
 
 
+def _memo_decorated(node):
+    for d in getattr(node, 'decorator_list', []) or []:
+        t = d.func if isinstance(d, ast.Call) else d
+        name = t.attr if isinstance(t, ast.Attribute) else (t.id if isinstance(t, ast.Name) else None)
+        if name in ('lru_cache', 'cache'):
+            return True
+    return False
+
+
 class Fn:
     def __init__(self, mod, node, closure=None, cls=None):
         self.mod = mod
@@ -365,6 +374,25 @@ class Exec:
         if q in self.overrides:
             return self.overrides[q](self, list(args), dict(kw))
         self.repo.note_used(fn.mod, fn.node, fn.cls)
+        node = fn.node
+        for d in getattr(node, 'decorator_list', []) or []:
+            t = d.func if isinstance(d, ast.Call) else d
+            dn = t.attr if isinstance(t, ast.Attribute) else (t.id if isinstance(t, ast.Name) else '?')
+            if dn not in ('lru_cache', 'cache', 'vectorize', 'staticmethod', 'classmethod', 'property', 'setter', 'wraps'):
+                raise Unsupported(f'decorator {dn} on {q} (no assumed contract)')
+        memo = _memo_decorated(node)
+        if memo:
+            # functools.lru_cache / cache: the first call with a given key fixes the result for the rest of the process, so anything
+            # the body reads besides its arguments (the mutable global variable object, module state) leaks from earlier calls
+            self.memo_stack = getattr(self, 'memo_stack', []) + [q]
+            try:
+                return self._call_fn_body(fn, args, kw)
+            finally:
+                self.memo_stack = self.memo_stack[:-1]
+        return self._call_fn_body(fn, args, kw)
+
+    def _call_fn_body(self, fn, args, kw):
+        q = fn.qual()
         node = fn.node
         a = node.args
         env = {'__mod__': fn.mod, '__parent__': fn.closure, '__fn__': fn}
@@ -772,6 +800,8 @@ class Exec:
     def getattr(self, o, attr):
         from . import extern
         if isinstance(o, Obj):
+            if o is self.gv and attr in o.f and getattr(self, 'memo_stack', None):
+                self.event('memo_state_read', (self.memo_stack[-1], 'gv.' + attr), self.where())
             if attr in o.f:
                 return o.f[attr]
             if attr == '__class__':
